@@ -31,6 +31,15 @@ CHECKS = {
  "C12": dict(technique="TLA+ packed-word/note-cell spec (RVWords) model-checked by TLC over (old word, field, new value) triples; array-valued traces from real Note/Pattern/Visualization/module/project objects judged by the trace spec",
              text="SetterCorrect (field reads back masked/clamped, all other fields unchanged) is checked by TLC for every triple of the bounded word sets (thorough: all 65536 note words x all values); real objects are driven over complete old-word axes and complete new-value axes, all NOTECMD x velocity cells, random pattern byte images (in memory and through files) and the SMII/SFGS file words, and TLC compares each result with SetSub/GetSub/NoteBytes/Image.",
              ref="5/C12, A.5"),
+ "C18": dict(technique="TLA+ load/strictness spec (RVLoad) model-checked by TLC under every fault schedule; fault-injected real loads (counting stream, wrapped Path.open, corrupted and truncated files, nested loads) validated by the trace spec",
+             text="MC_RVLoad explores every schedule of nested loads, reads and a fault at any point for both initial values with invariants Restored (flag back to its entry value and no library-opened file left open once no load is active) and LenientInside. Real loads of all fixtures and generated nested files are run with an I/O error at individual stream call indices, truncation and corruption at chunk positions (also inside embedded containers), both initial values, path and stream; the setting is logged at every stream call, at nested load entry/exit and at return/raise, and TLC validates each trace.",
+             ref="5/C18, A.3"),
+ "C19": dict(technique="TLA+ bulk-edit spec (RVBulk) with the all-or-nothing action property checked by TLC; real Pattern.set_via_fn/set_via_gen runs with a failure at every cell/yield index and successive edits validated step by step by the trace spec",
+             text="MC_RVBulk checks AllOrNothing (contents change only by a commit that installs the working copy) and OwnedWhenIdle over all contents of a small pattern. Real patterns (attached and unattached) are edited with both setters, a failure injected at each position, partial/repeated yields and sequences of edits; the callable logs the contents it observes at each call; TLC validates every begin/cell/fail/commit event incl. ownership and project-aware accessors of every installed note.",
+             ref="5/C19, A.4"),
+ "C20": dict(technique="TLA+ MultiCtl spec (RVMultiCtl: macro outcome, delivery envelope) with the intended conversion model-checked over the complete input axis; real macro calls and complete 0..32768 sweeps per parameter tuple judged by the trace spec",
+             text="MC_RVMultiCtl checks InRange and the Monotone action property of the intended conversion for all 32769 inputs on a grid of gains, windows and spans. MultiCtl.macro is called for every (type, controller) target, for multi-target and refused requests; for sampled parameter tuples (incl. corner gains/quantizations/windows and non-default monotone curves) the real MultiCtl.value is set to every input and the value arriving at the target is recorded; TLC checks outcome, range, monotonicity, and that unmapped links leave their target untouched.",
+             ref="5/C20"),
 }
 PENDING = {}
 props = [json.loads(l) for l in open(os.path.join(HERE, "properties.jsonl"))]
